@@ -630,6 +630,16 @@ func runDecidesRules(p *Program, id string) ([]*Gen, []string) {
 							continue
 						}
 					}
+					if wa := kv["when-arg"]; wa != "" {
+						// only calls whose N-th argument has this shape (when-arg=N:PATTERN)
+						parts := strings.SplitN(wa, ":", 2)
+						var an int
+						fmt.Sscanf(parts[0], "%d", &an)
+						c, isCall := in.(*ssa.Call)
+						if !isCall || len(parts) != 2 || an >= len(c.Call.Args) || !pathMatches(valuePath(c.Call.Args[an]), parts[1]) {
+							continue
+						}
+					}
 					n++
 					seen := map[ssa.Value]bool{}
 					fields := map[string]bool{}
